@@ -3,7 +3,7 @@ import producer_common as pc
 META = dict(
     level="model_checking",
     engine="Producer",
-    technique="spec/Producer.tla with the idempotent path (transaction manager, retryBatch goroutine, broker epoch/sequence/5-batch-window rules) model-checked by TLC (NoDoubleAppend, SuccessInLog); behaviours and fault families replayed on the real idempotent producer against simulated brokers enforcing Kafka's checkSequence rules; TLC validates no_duplicate_append / success_in_log_exactly_once / sequence_contiguous / resend_identical on the recorded traces",
+    technique="spec/Producer.tla with the idempotent path (transaction manager, retryBatch goroutine, broker epoch/sequence/5-batch-window rules) model-checked by TLC (NoDoubleAppend, SuccessInLog); behaviours and fault families replayed on the real idempotent producer against simulated brokers enforcing Kafka's checkSequence rules; TLC validates no_duplicate_append / success_in_log_exactly_once / sequence_contiguous / resend_identical on the recorded traces; conducted replay of model behaviours (conduct.idem*); the real transaction manager's numbering per (topic, partition) validated by spec/SeqKeysTrace.tla",
     text='The simulated brokers enforce producer id / epoch / sequence rules (in-window duplicate => success with the original offset, older => DUPLICATE_SEQUENCE_NUMBER, gap => OUT_OF_ORDER, lower epoch => fenced) and log every batch with pid, epoch, first sequence and ids. TLC checks on each recorded execution that no id is appended twice, every success is in the log exactly once, batches of one epoch are sequence-contiguous and a resent batch is identical. Faults: retriable before/after append, ack lost, drops, silence, leader move, fatal on the other partition, budget exhaustion; fresh input injected into the retry window through hook gates.',
     note='conducted replay: TLC behaviours in hook normal form (every internal action recorded) are followed step by step by the real goroutines, parked at the hook points by a conductor that fails open (followed/diverged counts in the evidence); valid idempotent configurations only (MaxOpenRequests=1, acks=all, Retry.Max>=1, >=0.11); known finding F-C05-idem-fault-resend covers the connection-failure / epoch-bump-with-in-flight family, so in that family only other clauses can alarm; bounded model',
     design_ref="6/C05",
@@ -17,5 +17,24 @@ def run(ctx):
             ("gen", "gen.idem", n), ("gen", "gen.idem1", n), lambda: pc.family_faults(True, ctx.seed), lambda: pc.family_gates(True), pc.family_idem_clean, lambda: pc.family_resubmit(True), lambda: pc.family_error_codes(True),
             pc.family_idem_extra]
     mc = ["MCProducer.idem.cfg"] if ctx.tier == "quick" else ["MCProducer.idem.cfg", "MCProducer.liveidem.cfg"]
+    # numbering per (topic, partition) on the real transaction manager (names that run into each other when concatenated)
+    rc, out, outdir = ctx.go_test("^TestVerifSeqKeys$", timeout=300, name="seqkeys", only=["sim_cluster*", "sim_fetch*", "prod_driver*", "prod_sync*", "seqkeys*"])
+    ctx.need_go(rc, out, "sequence key harness")
+    import os
+    import vlib
+    rs = ctx.tlc_trace("SeqKeysTrace", "SeqKeysTrace.cfg", os.path.join(outdir, "trace.ndjson"), shards=1, name="seqkeys-trace")
+    kviols, kstats = [], {}
+    for r in rs:
+        ctx.need(r, "sequence key trace validation")
+        kviols += vlib.trace_viols(r)
+        for d in r.printed("STATS")[:1]:
+            kstats = d
+    if not kstats.get("calls"):
+        raise vlib.Inconclusive("sequence key harness recorded no call")
+    for v in kviols:
+        v["features"] = {"scenario": "seqkeys", "family": "seqkeys", "idem": True, "cause": "none"}
+    pc.EXTRA = dict(viols=kviols, cov={"sequence_key_calls": kstats.get("calls"), "sequence_key_pairs": kstats.get("pairs"),
+                                      "sequence_key_epoch_bumps": kstats.get("bumps")})
+    pc.CLAUSES["C05"] = set(pc.CLAUSES["C05"]) | {"sequence_per_partition", "epoch_changes_only_by_bump"}
     # the model itself exhibits the known duplicate-after-connection-loss finding: that run must violate NoDoubleAppend
     return pc.check(ctx, "C05", fams, mc, extra_mc=[("MCProducer", "MCProducer.idemdup.cfg", "NoDoubleAppend")])
